@@ -61,3 +61,24 @@ Definition rejects_ok (f : facts) (o : obs) : bool :=
   else true.
 
 Definition clauses (f : facts) (o : obs) : list bool := [total_ok o; sound_ok o; rejects_ok f o].
+
+(* ---------- extension: updates and the remote rate limiter ---------- *)
+Record upd_obs := {
+  u_info : option ares;     (* ClusterInfo.Sync(object 2) on the ClusterInfo created from object 1; None = none was created *)
+  u_ctrl : ares;            (* second syncUpstreamCluster of the same controller *)
+  u_lim : ares;             (* second UpstreamConditionHandler *)
+}.
+
+(* (4) a validated object can also be applied ON TOP OF a validated object *)
+Definition sound_update_ok (o1 o2 : obs) (u : upd_obs) : bool :=
+  if (ares_eqb (o_admit o1) Ok && ares_eqb (o_admit o2) Ok)%bool
+  then (match u_info u with Some Ok => true | _ => false end && ares_eqb (u_ctrl u) Ok && ares_eqb (u_lim u) Ok)%bool
+  else true.
+
+Definition rres_ok (r : rres) : bool := match r with ROk => true | _ => false end.
+Definition round_ok (r : round_res) : bool :=
+  (rres_ok (rr_sync r) && rres_ok (rr_count r) && rres_ok (rr_alloc r) && rres_ok (rr_load r))%bool.
+(* (5) with the remote rate limiter, every reconcile step for a sequence of validated versions (first gateway on
+   all of them, a second replica on the last one) works without error or panic, on the gateway and on the limiter *)
+Definition sound_remote_ok (admits : list ares) (rs : list round_res) : bool :=
+  if forallb (fun a => ares_eqb a Ok) admits then forallb round_ok rs else true.
